@@ -4,7 +4,7 @@ sys.path.insert(0, os.path.join(VERIF, 'vp'))
 import gen_null
 
 BOUNDS = {'entry points': 'every exported spif_*/spiftool_* prototype of str.h ustr.h mbuff.h objpair.h tok.h url.h regexp.h socket.h obj.h libast.h whose pointer parameter the frozen contract (spec/null_contract.json) lists as guarded',
-          'arguments': 'the guarded parameter NULL, every other argument a valid object built by the real constructors', 'runtime debug level': 'symbolic unsigned int (level 0 must return; >= 1 may end through libast_fatal_error)'}
+          'arguments': 'the guarded parameter NULL, every other argument a valid object built by the real constructors - once holding text and once in its empty state; and every guarded parameter NULL at once', 'runtime debug level': 'symbolic unsigned int (level 0 must return; >= 1 may end through libast_fatal_error)'}
 RULE = 'C16 shapes: (function, parameter position); the runtime debug level is symbolic.'
 ASSUMPTIONS = ['contract = the guards present on the pinned tree (plus this task\'s fix commits), frozen in spec/null_contract.json; the harness is regenerated from the CURRENT headers on every run',
                'static class-table slots of the container classes, stream/descriptor constructors and the socket I/O entry points are not in the contract (listed in gen_null.py SKIP)',
@@ -24,5 +24,5 @@ def families(tier):
                note='generated from spec/null_contract.json (%d guarded parameters with a harness)' % len(entries))
     f.cleanup = path
     for fn, func, pos, kind in entries:
-        f.add('C16/%s/param=%d,%s' % (func, pos, kind), fn)
+        f.add('C16/%s/param=%s,%s' % (func, pos, kind), fn)
     return [f]
